@@ -13,6 +13,13 @@ probing runs; the recorded observations must be a behaviour of Cache.tla (Design
 `start` builds a new container (Sequence / Source / alter_sequence result / bare element / Split) around
 the same elements; `restart` runs the SAME container object once more (model: rr = TRUE, Restart).
 C2S: seeded random longer histories (with restarts), validated the same way.
+
+Flow values: every data version is a sequence of value codes (FRESH / DUP / special value k) chosen by TLC from the
+data profiles of the configuration; the harness binds FRESH to the value style of the history, DUP to the same object
+yielded once more and k to element k of a set of special values (None, exception instances, empty / falsy objects ...).
+Kept runs (model: hd = TRUE): `stop keep` - the consumer keeps the iterator of a stopped run; `raise` with c = 1 - the
+caller keeps the exception object (its traceback keeps the generators upstream of the raising element suspended);
+`release` drops everything kept.  Later runs start while the stopped run is still suspended, and after it was released.
 """
 import pickle
 import random
@@ -20,7 +27,8 @@ import random
 from .. import cachelib as cl
 from .. import core
 
-MUST =("NewAny", "DropAny", "ChangeData", "StartAny", "Restart", "Deliver", "Exhaust", "RaiseAt", "Stop", "BrokenRaise")
+MUST =("NewAny", "DropAny", "ChangeData", "StartAny", "Restart", "Deliver", "Exhaust", "RaiseAt", "Stop", "BrokenRaise",
+       "Release")
 PROTOCOLS = (2, 0, 4, 3, pickle.HIGHEST_PROTOCOL)
 
 
@@ -28,6 +36,10 @@ def random_history(rnd):
     base = rnd.randint(0, 8)
     # flow length of each data version: mostly the same, sometimes empty, sometimes another one
     lens = [base if r < 0.55 else 0 if r < 0.8 else rnd.randint(0, 8) for r in (rnd.random() for _ in range(9))]
+    # value codes: mostly values of their own; sometimes special values (None, ...) and repeated objects
+    p_special = rnd.choice([0.0, 0.0, 0.15, 0.4])
+    vk = [[rnd.randrange(4) if r < p_special else cl.DUP if r < 1.4 * p_special else cl.FRESH
+           for r in (rnd.random() for _ in range(m))] for m in lens]
     nc = rnd.choice([1, 2, 2])
     shape = {"pre": rnd.random() < 0.6, "mid": nc == 2 and rnd.random() < 0.6, "post": rnd.random() < 0.6}
     sites = ["src", "pkl"] + [k for k in ("pre", "mid", "post") if shape[k]]
@@ -35,8 +47,13 @@ def random_history(rnd):
     rc = cmds[0]["rc"]
     ver = 1
     started = False
+    p_keep = rnd.choice([0.0, 0.3, 0.6])     # the consumer keeps the iterator / the exception of a stopped run
+    nkept = 0
     for _ in range(rnd.randint(2, 8)):
         r = rnd.random()
+        if nkept and rnd.random() < 0.3:
+            cmds.append({"cmd": "release", "a": "", "rc": rc, "c": 0})
+            nkept = 0
         if r < 0.25:
             rc = [rnd.random() < 0.3 for _ in range(nc)]
             cmds.append({"cmd": "new", "a": "", "rc": rc, "c": 0})
@@ -57,18 +74,23 @@ def random_history(rnd):
         if end < 0.45:      # complete run
             k, last = n + 1, None
         elif end < 0.75:    # the consumer stops after k values
-            k, last = rnd.randint(0, n), {"cmd": "stop", "a": rnd.choice(["close", "abandon"]), "rc": rc, "c": 0}
+            how = "keep" if rnd.random() < p_keep else rnd.choice(["close", "abandon"])
+            k, last = rnd.randint(0, n), {"cmd": "stop", "a": how, "rc": rc, "c": 0}
+            nkept += how == "keep"
         else:               # an element raises at value k + 1
-            k, last = rnd.randint(0, max(0, n - 1)), {"cmd": "raise", "a": rnd.choice(sites), "rc": rc, "c": 0}
+            held = int(rnd.random() < p_keep)
+            k, last = rnd.randint(0, max(0, n - 1)), {"cmd": "raise", "a": rnd.choice(sites), "rc": rc, "c": held}
+            nkept += held
         cmds.extend({"cmd": "next", "a": "", "rc": rc, "c": 0} for _ in range(k))
         if last:
             cmds.append(last)
-    return {"lens": lens, "nc": nc, "shape": shape}, cmds
+    return {"lens": lens, "vk": vk, "nc": nc, "shape": shape}, cmds
 
 
 def binding_demo(ctx):
     """Corrupt one recorded field of an accepted history: Trace_Cache must reject exactly there."""
-    scen = {"lens": [2, 2], "nc": 1, "shape": {"pre": True, "mid": False, "post": True}}
+    scen = {"lens": [2, 2], "vk": [[cl.FRESH, cl.FRESH], [cl.FRESH, cl.FRESH]], "nc": 1,
+            "shape": {"pre": True, "mid": False, "post": True}}
     nx = {"cmd": "next", "a": "", "rc": [False], "c": 0}
     cmds = [{"cmd": "new", "a": "", "rc": [False], "c": 0}, {"cmd": "start", "a": "seq", "rc": [False], "c": 0},
             nx, nx, nx]
@@ -120,7 +142,14 @@ def run(ctx):
                "its snapshot at the moment it is yielded; the flow length depends on the data version; pickle protocols "
                "0, 2, 3, 4 and the highest; an element that raises raises an Exception, a plain BaseException subclass, "
                "KeyboardInterrupt or SystemExit; the two caches of a pipeline are named c1.v1.ü.pkl + sub/c2.pkl, "
-               "events.raw + events.sel, events + events.pkl or store/cache + store/cache.v2")
+               "events.raw + events.sel, events + events.pkl or store/cache + store/cache.v2; a flow may contain special "
+               "values (six sets of four: None, EOFError() / StopIteration() instances, the EOFError class, b'', '', 0, 0.0, "
+               "False, (), [], frozenset(), Ellipsis, NotImplemented, '.', a bytes object that is a complete pickle) and the "
+               "same object twice in a row, at the positions the data profile of the model says")
+    ctx.assume("a consumer that stops pulling may keep the iterator, and a caller may keep the exception of a failed run "
+               "(with its traceback), while later runs use the same caches; dropping them later (release) may leave a "
+               "cache as it is, remove it or make it unreadable - it never makes loadable what was not stored by a "
+               "complete run; a kept run is not resumed after other runs, and nothing is released while a run is open")
     ctx.assume("a cache left by an interrupted run may be kept, removed, refused with an exception by a later "
                "run, or hold the complete flow - everything except a loadable proper prefix is accepted")
     ctx.assume("a container that alter_sequence built from a filled cache (a Source without the upstream) and that is "
@@ -152,12 +181,15 @@ def run(ctx):
     # explicit dimensions: values with internal sharing always go through a memoizing protocol (4 or the
     # highest); the class of the injected exception rotates over the histories in which an element raises;
     # the pair of cache file names rotates over the histories with two caches
-    nraise = ntwo = 0
+    nraise = ntwo = nspec = 0
     full = []
     for i, (scen, cmds, style, prot) in enumerate(items):
         if style == "shared":
             prot = (4, pickle.HIGHEST_PROTOCOL)[(i // len(cl.STYLES)) % 2]
-        opts = {"names": 0, "exc": "exc"}
+        opts = {"names": 0, "exc": "exc", "specials": 0}
+        if any(k >= 0 for codes in scen["vk"] for k in codes):
+            opts["specials"] = nspec % len(cl.SPECIAL_SETS)
+            nspec += 1
         if any(c["cmd"] == "raise" for c in cmds):
             opts["exc"] = cl.EXC_KINDS[nraise % len(cl.EXC_KINDS)]
             nraise += 1
@@ -167,18 +199,26 @@ def run(ctx):
         full.append((scen, cmds, style, prot, opts))
     items = full
     ctx.extra["histories_with_restart"] = sum(1 for _s, cmds in paths if any(c["cmd"] == "restart" for c in cmds))
+    ctx.extra["histories_with_kept_run"] = sum(1 for _s, cmds in paths if any(
+        (c["cmd"] == "stop" and c["a"] == "keep") or (c["cmd"] == "raise" and c["c"] == 1) for c in cmds))
+    ctx.extra["histories_with_special_or_repeated_values"] = sum(
+        1 for scen, _c in paths if any(k != cl.FRESH for codes in scen["vk"] for k in codes))
     # ---- code -> spec: random longer histories (validated in the same wave of TLC runs)
     rnd = random.Random(ctx.seed)
     for i in range(6000 if ctx.thorough else 400):
         scen, cmds = random_history(rnd)
         items.append((scen, cmds, rnd.choice(cl.STYLES), rnd.choice(PROTOCOLS),
-                      {"names": rnd.randrange(len(cl.NAME_PAIRS)), "exc": rnd.choice(cl.EXC_KINDS)}))
+                      {"names": rnd.randrange(len(cl.NAME_PAIRS)), "exc": rnd.choice(cl.EXC_KINDS),
+                       "specials": rnd.randrange(len(cl.SPECIAL_SETS))}))
     cl.check_histories(ctx, items, "replay")
     binding_demo(ctx)
     return ctx.finish(
         rule="S2C: every transition of the state graph of Cache.tla (conforming design) reached by a shortest "
              "command history, executed on real Sequence / Source / alter_sequence / bare element / Split-branch pipelines with 1-2 caches, continued "
              "to the end of the run and probed by one more run; every reachable state with a kept container object "
-             "(Sequence, Source, hoisted Source, bare Cache, Split) continued by a run of the SAME object; C2S: seeded random histories (flows <= 8, <= 8 runs); "
+             "(Sequence, Source, hoisted Source, bare Cache, Split) continued by a run of the SAME object; every reachable state "
+             "with a stopped run kept suspended (iterator or exception kept) continued by later runs and by the release of what was kept; "
+             "flows with special values (None, ...) and repeated objects at the positions of the data profiles; "
+             "C2S: seeded random histories (flows <= 8, <= 8 runs, kept runs, special values); "
              "every recorded history validated by Trace_Cache.tla; non-trivial = non-empty flow and more than 3 events",
         exhaustive=True)
